@@ -1274,3 +1274,28 @@ package ring
 //@ func Ring.NthRoot
 //@   requires 0 < len(r.SubRings)
 //@   ensures result == r.SubRings[0].NthRoot
+
+// ---- NTT butterflies (property C01): the Cooley-Tukey / Gentleman-Sande butterflies on lazy
+// ---- representatives.  With every coefficient below 8q on entry and 6q <= 2^64 nothing wraps,
+// ---- the outputs are below 6q (forward) resp. 2q (inverse) and congruent to U +- V*Psi/2^64,
+// ---- resp. U + V and (U - V)*Psi/2^64 (Psi is a root of unity in Montgomery form).
+//@ func butterfly
+//@   property C01
+//@   requires mredpre(Q, MRedConstant) && Q < 1<<61 && twoQ == 2*Q && fourQ == 4*Q
+//@   requires U < 8*Q && V*Psi < Q*W
+//@   let U0 = old(U)
+//@   let V0 = old(V)
+//@   let Ur = ite(U0 >= 4*Q, U0 - 4*Q, U0)
+//@   let Vr = MRedLazy(V0, Psi, Q, MRedConstant)
+//@   ensures result0 == Ur + Vr && result1 == Ur + 2*Q - Vr
+//@   ensures result0 < 6*Q && result1 < 6*Q
+//@   ensures cong(result0*W, U0*W + V0*Psi, Q) by cong_intro(Ur, U0, ite(U0 >= 4*Q, 0 - 4, 0), Q); cong_scale(Ur, U0, W, Q); cong_add(Ur*W, U0*W, Vr*W, V0*Psi, Q)
+//@   ensures cong(result1*W, U0*W - V0*Psi, Q) by cong_intro(Ur + 2*Q, U0, ite(U0 >= 4*Q, 0 - 2, 2), Q); cong_scale(Ur + 2*Q, U0, W, Q); cong_sub((Ur + 2*Q)*W, U0*W, Vr*W, V0*Psi, Q)
+
+//@ func invbutterfly
+//@   property C01
+//@   requires mredpre(Q, MRedConstant) && Q < 1<<61 && twoQ == 2*Q && fourQ == 4*Q
+//@   requires U < 2*Q && V < 2*Q && Psi < Q
+//@   ensures X < 2*Q && Y < 2*Q
+//@   ensures cong(X, U + V, Q) by cong_intro(X, U + V, ite(U + V >= 2*Q, 0 - 2, 0), Q)
+//@   ensures cong(Y*W, (U - V)*Psi, Q) by mulhyp(val("U+fourQ-V"), U + 4*Q - V, Psi); cong_intro(U + 4*Q - V, U - V, 4, Q); cong_scale(U + 4*Q - V, U - V, Psi, Q); cong_trans(Y*W, (U + 4*Q - V)*Psi, (U - V)*Psi, Q)
